@@ -88,7 +88,9 @@ def run(ctx):
     # ---- (R) corpus reactions at the MCS stage
     base = pipe.corpus_run(ctx)
     ins = [inp for b in base if len(b["rows"]) == len(b["inputs"]) for inp, r in zip(b["inputs"], b["rows"]) if r["solved_by"] not in ("input-balanced", "rule-based")]
-    ins = ins[:36 if ctx.quick() else 600] + ["CC>>O", "c1ccccc1>>N", "CCO>>CCO", "CCOC(=O)C>>CC(=O)O"]
+    ins = ins[:36 if ctx.quick() else 600] + ["CC>>O", "c1ccccc1>>N", "CCO>>CCO", "CCOC(=O)C>>CC(=O)O",
+                                              # sides that differ in AROMATIC carbons only / against the aliphatic difference
+                                              "CC(=O)Cl>>CC(=O)c1ccccc1", "CCOC(=O)c1ccc(Br)cc1.CCO>>OC(=O)c1ccc(-c2ccccc2)cc1", "CC(=O)c1ccccc1>>CC(=O)O"]
     rng.shuffle(ins)
     items = [(ins[i:i + 6], None, 0) for i in range(0, len(ins), 6)]
     # equivalents: reactions of one batch that consist of the same compounds in different multiplicities (and exact repetitions)
@@ -147,7 +149,9 @@ def run(ctx):
             if (a["issue"] or "") == "":
                 rxn = a["reaction"]
                 l, p = rxn.split(">>")
-                side = l if a["carbon"] in ("products", "balanced") else p
+                # the carbon-richer side by an independent count (atomic number 6 with RDKit), not by the implementation's own label
+                cl, cp = pipe.carbons(l), pipe.carbons(p)
+                side = (l if cl >= cp else p) if (cl is not None and cp is not None) else (l if a["carbon"] in ("products", "balanced") else p)
                 want, got = pipe.canon_multiset(side), pipe.canon_multiset(".".join(a["sorted_reactants"]))
                 if want != got:
                     extra, missing = got - want, want - got
